@@ -539,6 +539,24 @@ def validate_encoding(prog: Prog, view, fn, slots, m=None, points=1):
                 prog.notes.append({"encoder-validation-skip": f"{fn}[{idx}] comparison / floor tie at the sample point"})
                 continue
             if idx < len(real) and differs(real[idx], sym, tol=1e-7):
+                # a tie that my term constructors folded away at construction time (Mod(1, 0.2) -> 0): ask the reference
+                # evaluator, which tracks exactness, whether the model passes a discontinuity on a tie at this point
+                rm = m or getattr(prog, "refmodel", None)
+                tied = False
+                if rm is not None:
+                    for a in rm.assigns.values():
+                        try:
+                            refsem.numeric(a, env_from_inputs(rm, inp), rm)
+                        except Exception:
+                            tied = True
+                            break
+                        if refsem.NEAR_TIES:
+                            tied = True
+                            break
+                if tied:
+                    prog.notes.append({"encoder-validation-skip": f"{fn}[{idx}] the model passes a comparison / floor on a tie at the sample point"})
+                    continue
+            if idx < len(real) and differs(real[idx], sym, tol=1e-7):
                 # ill-conditioned sample point (cos of 1e11, a cancellation): 16 significant digits change the value of
                 # MY term as well, so the disagreement says nothing about the encoder
                 try:
